@@ -274,6 +274,7 @@ fn run_generic<const N: usize>(c: &ACase) -> Result<u64, String> {
                     }
                     let mut s = Sink(0);
                     let _ = measured!("Drain as Debug", false, write!(s, "{:?}", d));
+                    let _ = measured!("Drain as Debug with width / precision / flags", false, write!(s, "{:6?} {:<3?} {:#2?} {:04x?} {:.1?}", d, d, d, d, d));
                     measured!("dropping the Drain", y > x, drop(d));
                 }
                 AOp::IterWalk(a, b, steps) => {
@@ -288,6 +289,7 @@ fn run_generic<const N: usize>(c: &ACase) -> Result<u64, String> {
                     let _ = measured!("iter() / (&buf).into_iter()", len > 0, (buf.iter().count(), (&buf).into_iter().rev().count()));
                     let mut s = Sink(0);
                     let _ = measured!("Iter as Debug", false, write!(s, "{:?}", buf.iter()));
+                    let _ = measured!("Iter as Debug with width / precision / flags", false, write!(s, "{:6?} {:<3?} {:#2?} {:04x?} {:.1?}", buf.iter(), buf.iter(), buf.iter(), buf.iter(), buf.iter()));
                 }
                 AOp::IterMutWalk(a, b, steps) => {
                     let (x, y) = (pos(*a, len + 1), pos(*b, len + 1));
@@ -347,6 +349,7 @@ fn run_generic<const N: usize>(c: &ACase) -> Result<u64, String> {
                     measured!("Hash", len > 0, buf.hash(&mut h));
                     let mut s = Sink(0);
                     let _ = measured!("Debug", len > 0, write!(s, "{:?} {:#?}", buf, buf));
+                    let _ = measured!("Debug with width / precision / flags", len > 0, write!(s, "{:6?} {:<3?} {:>40?} {:#2?} {:04x?} {:.1?} {:^+9X?}", buf, buf, buf, buf, buf, buf, buf));
                 }
                 AOp::CloneBuf => {
                     let c2 = measured!("clone", len > 0, buf.clone());
@@ -382,6 +385,7 @@ fn run_generic<const N: usize>(c: &ACase) -> Result<u64, String> {
                     let it2 = measured!("IntoIter::clone", false, it.clone());
                     let mut s = Sink(0);
                     let _ = measured!("IntoIter as Debug", false, write!(s, "{:?}", it2));
+                    let _ = measured!("IntoIter as Debug with width / precision / flags", false, write!(s, "{:6?} {:<3?} {:#2?} {:04x?} {:.1?}", it2, it2, it2, it2, it2));
                     measured!("dropping the IntoIter", len > 0, drop((it, it2)));
                 }
                 AOp::OutOfRange => {
